@@ -349,6 +349,16 @@ func VerifH_C09_no_waiting_window() {
 			verifrt.Assert(!(st == step.RunningStepStateWaitingForInput && cs == stages[a]), "a step that was given its "+stages[a]+" input no longer shows as waiting for input in that stage")
 		}
 	}
+	// ... and not later either (the step's goroutine may have been between looking for the input and
+	// publishing its state when the input arrived): let it go as far as it can and read the state again
+	verifrt.Settle()
+	{
+		rs := r.(*runningStep)
+		rs.lock.Lock()
+		st, cs := rs.state, string(rs.currentStage)
+		rs.lock.Unlock()
+		verifrt.Assert(!(st == step.RunningStepStateWaitingForInput && cs == stages[upto]), "a step that was given its "+stages[upto]+" input does not show as waiting for input in that stage once it has picked the input up")
+	}
 	verifEpilogue(e, r, false)
 }
 
@@ -417,4 +427,48 @@ func VerifH_C05_slow_container_stop() {
 	}
 	verifrt.Assert(verifrt.LiveGoroutines() == 0, "no goroutine of the step is alive by the time the close request returns")
 	verifrt.Assert(e.execLive == 0, "no plugin execution is in flight by the time the close request returns")
+}
+
+// C14 (provider side): the runs of one prepared plugin step share nothing that depends on a run. Two
+// running steps are started from the same runnable step (as two runs of a prepared workflow, or two items of
+// a loop, do), sequentially or overlapping, each with its own deployment configuration: each is deployed
+// through a connector created from its own configuration and reports its own life story.
+func VerifH_C14_plugin_runs_share_nothing() {
+	e := verifNewEnv(true)
+	e.lazy = false
+	rn, err := VerifProvider(e).LoadSchema(map[string]any{"plugin": map[string]any{"src": "image", "deployment_type": "builtin"}}, nil)
+	verifrt.Assert(err == nil, "LoadSchema succeeds")
+	before := len(e.deployCfgs) // the schema probe
+	cfg := []any{any(verifrt.NondetVal("cfg1")), any(verifrt.NondetVal("cfg2"))}
+	hs := []*vHandler{newHandler(), newHandler()}
+	var rs []step.RunningStep
+	overlap := verifrt.Choice("overlap", 2) == 1
+	for k := 0; k < 2; k++ {
+		r, err := rn.Start(map[string]any{"step": "wait"}, "run", hs[k])
+		verifrt.Assert(err == nil, "Start succeeds")
+		rs = append(rs, r)
+		verifrt.Assert(r.ProvideStageInput("deploy", map[string]any{"deploy": cfg[k]}) == nil, "deploy input accepted")
+		if !overlap {
+			verifrt.Settle()
+		}
+	}
+	verifrt.Settle()
+	got := e.deployCfgs[before:]
+	verifrt.Assert(len(got) == 2, "each run deploys once")
+	if len(got) == 2 {
+		if !overlap {
+			verifrt.Assert(got[0] == cfg[0] && got[1] == cfg[1], "each run is deployed with its own deployment configuration")
+		} else {
+			verifrt.Reach("overlapping")
+			verifrt.Assert((got[0] == cfg[0] && got[1] == cfg[1]) || (got[0] == cfg[1] && got[1] == cfg[0]), "each run is deployed with its own deployment configuration")
+		}
+	}
+	for k := range rs {
+		verifrt.Assert(rs[k].ForceClose() == nil, "ForceClose returns no error")
+	}
+	verifrt.Settle()
+	for k := range hs {
+		verifrt.Assert(hs[k].completes == 1, "each run reports exactly one completion")
+	}
+	verifrt.Assert(verifrt.LiveGoroutines() == 0, "no goroutine of either run survives")
 }
